@@ -541,7 +541,7 @@ func chanCap(f *ast.File, fn, name string) string {
 	}
 	res := unrec
 	check := func(lhs string, rhs ast.Expr) {
-		if lhs != name {
+		if lhs != name && !strings.HasSuffix(lhs, "."+name) { // a variable or a field of that name
 			return
 		}
 		c, ok := rhs.(*ast.CallExpr)
@@ -1895,6 +1895,24 @@ func emitStruct() {
 	}
 	e.f("/-- `response.Write`: its return statements in source order -/\ndef responseWriteReturns : List String := %s\n", strList(rwRet))
 	e.f("/-- `Reset` calls in server.go -/\ndef serverResetCalls : List String := %s\n", strList(callsOf(&ast.FuncDecl{Name: ast.NewIdent("all"), Type: &ast.FuncType{Params: &ast.FieldList{}}, Body: &ast.BlockStmt{List: declStmts(srv)}}, "Reset")))
+	// sm/client.go handshake: how the CEA / DWA handlers it registers on the (shared) mux find
+	// the channels to report to
+	var hsRegs []string
+	if fd := findFunc(parseFile("diam/sm/client.go"), "Client", "handshake"); fd != nil {
+		ast.Inspect(fd, func(n ast.Node) bool {
+			if c, ok := n.(*ast.CallExpr); ok {
+				if se, ok := c.Fun.(*ast.SelectorExpr); ok && (se.Sel.Name == "Handle" || se.Sel.Name == "HandleFunc" || se.Sel.Name == "HandleIdx") && len(c.Args) == 2 {
+					if k := exprString(c.Args[0]); k == "\"CEA\"" || k == "\"DWA\"" {
+						hsRegs = append(hsRegs, k+"="+exprString(c.Args[1]))
+					}
+				}
+			}
+			return true
+		})
+	} else {
+		hsRegs = []string{"unrecognised"}
+	}
+	e.f("/-- `Client.handshake`: the CEA / DWA handlers registered on the state machine's mux -/\ndef handshakeAnswerHandlers : List String := %s\n", strList(hsRegs))
 	e.f("end Gen\n")
 	e.write("Struct.lean")
 }
